@@ -1489,6 +1489,9 @@ func (r *run) exec1(op Op) {
 		}
 		key := strings.ToLower(op.Ev)
 		variant := ""
+		if mode == "hangreset" && r.ctlState().ReadOnly {
+			mode = "drop" // a read-only volume refuses the write before any replica is involved: nothing to hang
+		}
 		if mode == "hangreset" {
 			// the replicas in F stop answering (connection open); once a ping of the controller is
 			// outstanding at each of them the write is issued, and 300 ms later their data
@@ -1622,6 +1625,15 @@ func (r *run) exec1(op Op) {
 		_, err := c.Snapshot(op.Name)
 		res, et := resOf(err)
 		r.emit("Snapshot", map[string]interface{}{"name": op.Name, "S": strs(op.F)}, res, et, nil)
+	case "Revert":
+		// Controller.Revert: every RW replica reverts to the snapshot; F = replicas whose call fails
+		r.arm(op.F, "rest:revert", "err")
+		err := c.Revert(op.Name)
+		res, et := resOf(err)
+		if err != nil && strings.Contains(et, "Fail to revert") {
+			res = "failed"
+		}
+		r.emit("Revert", map[string]interface{}{"name": op.Name, "F": strs(op.F)}, res, et, nil)
 	case "PresetRev":
 		// fixture: the replica's history before this controller existed
 		buf := make([]byte, 4096)
@@ -2243,6 +2255,30 @@ func (r *run) generate(n int, profile string) {
 				f = []string{rws[rng.Intn(len(rws)-1)]}
 			}
 			do(Op{Ev: "Resize", F: f})
+		case k < 90 && snapN > 0 && len(r.gated) == 0 && rng.Intn(2) == 0:
+			// the volume is reverted to one of its user snapshots (or to one that does not exist);
+			// now and then one replica fails the call
+			name := fmt.Sprintf("u%d", 1+rng.Intn(snapN))
+			var f []string
+			if len(rws) > 1 && rng.Intn(4) == 0 {
+				f = []string{rws[rng.Intn(len(rws))]}
+			}
+			// (a revert that fails on every replica leaves the frontend shut down: outside the
+			// model -- only issued when some RW replica that is not failing holds the snapshot)
+			holder := false
+			for _, nm := range rws {
+				if len(f) > 0 && f[0] == nm {
+					continue
+				}
+				for _, sn := range r.nodeState(r.node(nm)).Snaps {
+					if sn == name {
+						holder = true
+					}
+				}
+			}
+			if holder {
+				do(Op{Ev: "Revert", Name: name, F: f})
+			}
 		case k < 90:
 			do(Op{Ev: "SetMode", A: all[rng.Intn(len(all))], Mode: "ERR"})
 		case k < 95:
